@@ -596,14 +596,35 @@ func (tree *MutableTree) enableFastStorageAndCommitIfNotEnabled() (bool, error) 
 	// downgrade and subsequent re-upgrade, we cannot know for sure which fast nodes have been removed while downgraded,
 	// Therefore, there might exist stale fast nodes on disk. As a result, to avoid persisting the stale state, it might
 	// be worth to delete the fast nodes from disk.
-	fastItr := NewFastIterator(nil, nil, true, tree.ndb)
-	defer fastItr.Close()
+	// The keys are collected in chunks and deleted after the iterator of the chunk is closed: the
+	// batch may flush to the store at any delete, and the storage contract forbids writes within the
+	// domain of an open iterator (with MemDB such a write blocks for ever).
+	const fastNodeChunk = 1024
 	var deletedFastNodes uint64
-	for ; fastItr.Valid(); fastItr.Next() {
-		deletedFastNodes++
-		if err := tree.ndb.DeleteFastNode(fastItr.Key()); err != nil {
+	var start []byte
+	for {
+		fastItr := NewFastIterator(start, nil, true, tree.ndb)
+		keys := make([][]byte, 0, fastNodeChunk)
+		for ; fastItr.Valid() && len(keys) < fastNodeChunk; fastItr.Next() {
+			keys = append(keys, fastItr.Key())
+		}
+		err := fastItr.Error()
+		if cerr := fastItr.Close(); err == nil {
+			err = cerr
+		}
+		if err != nil {
 			return false, err
 		}
+		for _, key := range keys {
+			deletedFastNodes++
+			if err := tree.ndb.DeleteFastNode(key); err != nil {
+				return false, err
+			}
+		}
+		if len(keys) < fastNodeChunk {
+			break
+		}
+		start = append(append([]byte{}, keys[len(keys)-1]...), 0)
 	}
 
 	if err := tree.enableFastStorageAndCommit(); err != nil {
